@@ -13,6 +13,7 @@ import (
 	"verifharness/drv/c09"
 	"verifharness/drv/c10"
 	"verifharness/drv/c12"
+	"verifharness/drv/c13"
 	"verifharness/drv/c11"
 	"verifharness/drv/c14"
 	"verifharness/drv/c15"
@@ -31,6 +32,7 @@ var cmds = map[string]func([]string) error{
 	"c09": c09.Main,
 	"c10": c10.Main,
 	"c12": c12.Main,
+	"c13": c13.Main,
 	"c11": c11.Main,
 	"c14": c14.Main,
 	"c15": c15.Main,
